@@ -36,15 +36,15 @@ type gvReq struct {
 }
 
 type replayBuilder struct {
-	x     *FnCtx
-	eng   *Engine
-	reqs  []gvReq
-	vals  map[string]string
-	pkg   *types.Package
-	decl  strings.Builder
-	nvar  int
-	ok    bool
-	why   string
+	x    *FnCtx
+	eng  *Engine
+	reqs []gvReq
+	vals map[string]string
+	pkg  *types.Package
+	decl strings.Builder
+	nvar int
+	ok   bool
+	why  string
 }
 
 func (b *replayBuilder) want(name string, t *Term) string {
@@ -763,7 +763,6 @@ func runReplay(eng *Engine, rep *obReport, dir string, b *replayBuilder, fn *ssa
 	}
 	return replayRun{len(lines) > 0, confirmed, text}
 }
-
 
 func castNil(e string, t types.Type, pkg *types.Package) string {
 	if e == "nil" {
